@@ -286,6 +286,7 @@ def finish(spec, tier, seed, t0, results=None, out=None, inconclusive=None, vali
     asserts = sum(r.get("asserts", 0) for r in results)
     trivial = sum(r.get("trivial_asserts", 0) for r in results)
     fns, exts = set(), set()
+    uninit = set()
     bystatus = {}
     solver = {"queries": 0, "sat": 0, "unsat": 0, "unknown": 0, "errors": 0, "wall_s": 0.0, "max_query_ms": 0.0}
     samples = []
@@ -293,6 +294,7 @@ def finish(spec, tier, seed, t0, results=None, out=None, inconclusive=None, vali
     reached = set()
     for r in results:
         fns.update(r.get("fns") or [])
+        uninit.update(r.get("uninit_globals") or [])
         exts.update(r.get("externals") or [])
         reached.update(r.get("reached") or [])
         for k, v in (r.get("by_status") or {}).items():
@@ -336,6 +338,7 @@ def finish(spec, tier, seed, t0, results=None, out=None, inconclusive=None, vali
             "stdlib_and_dep_functions_executed_from_ssa": len([f for f in fns if "flamego/flamego" not in f]),
             "intrinsics_and_stubs_called": sorted(exts),
             "reach_tags": sorted(reached),
+            "globals_read_from_packages_whose_init_is_not_run": sorted(uninit),
             "bounds": spec.bounds(tier),
             "solver": dict(solver, name="z3 4.8.12 (-in, incremental push/pop)"),
             "inconclusive": inconclusive[:20],
